@@ -126,7 +126,8 @@ Proof.
   - destruct (f_write s v f data) as [[s2 f'] r]. cbn [fst snd] in *. destruct r; cbn [fst snd is_err] in *; auto; discriminate.
   - (* a regular file opened for writing: the write succeeds *)
     unfold f_write in *. rewrite Hname, Hc, Hmode, write_mode_ok in *.
-    destruct name; [congruence|]. unfold file_of in *. rewrite Hg in *. cbn [negb fst snd is_err] in *. discriminate.
+    destruct name; [congruence|]. unfold file_of in *. rewrite Hg in *. cbn [negb fst snd is_err] in *.
+    destruct data; cbn [fst snd is_err] in *; intros; discriminate.
 Qed.
 
 (* ---- the world ----------------------------------------------------------------------------------- *)
